@@ -172,6 +172,23 @@ func runWorker(prop, tier string, seed int64, w int) (out workerOut) {
 		}
 		engines = append(engines, res.Engine)
 	}
+	if prop == "C14" && len(engines) > 0 && engines[0] != nil {
+		// pure sub-monitor: formatters / validators / parsers on generated and arbitrary strings
+		n := 20000
+		if tier == "thorough" {
+			n = 300000
+		}
+		pr := mon.RunC14Pure(seed*31+int64(w), n)
+		for _, v := range pr.Violations {
+			parts := strings.SplitN(v, ": ", 2)
+			engines[0].Violate("C14", "pure/"+parts[0], parts[len(parts)-1])
+		}
+		cov["pure_string_evaluations"] = pr.Evaluations
+		cov["pure_strings_accepted_by_a_validator"] = pr.Accepted
+		cov["pure_ids_formatted"] = pr.Formatted
+		cov["pure_cells"] = pr.Cells
+		cov["pure_samples"] = pr.Samples
+	}
 	for _, m := range mons {
 		m.Finish(engines[len(engines)-1], cov)
 	}
